@@ -106,10 +106,18 @@ where
         .as_ref()
         .map_or(true, |h| h.is_closed());
       if window_closed {
-        let delay = (self.duration_selector)(&value);
         if self.edge.leading {
           // delivered on the leading edge: not a trailing candidate as well
-          self.trailing_value.rc_deref_mut().take();
+          let candidate = self.trailing_value.rc_deref_mut().take();
+          if self.edge.tailing && candidate.is_none() {
+            // the trailing task of the window that has just closed ran
+            // between the store above and the check: it has delivered this
+            // very item, as the last one of that window
+            return;
+          }
+        }
+        let delay = (self.duration_selector)(&value);
+        if self.edge.leading {
           self.observer.next(value)
         }
         let task = OnceTask::new(
